@@ -8,6 +8,7 @@
 //! and tear-down in many threads of ONE process serialise on the shared address space; separate
 //! processes scale).  Every worker answers one JSON line per unit.
 mod bufs;
+mod dgram;
 mod peer;
 mod rt;
 mod sops;
@@ -341,6 +342,13 @@ fn stream_layers(tier: Tier) -> Vec<(&'static str, usize)> {
     }
 }
 
+fn dgram_layers(tier: Tier) -> Vec<(&'static str, usize)> {
+    match tier {
+        Tier::Quick => vec![("recv-deep", 4), ("recv-cross", 2), ("send", 2), ("connected", 3)],
+        Tier::Thorough => vec![("recv-deep", 6), ("recv-cross", 3), ("send", 3), ("connected", 4)],
+    }
+}
+
 fn make_units(tier: Tier) -> Vec<Unit> {
     let mut units: Vec<Unit> = Vec::new();
     for (layer, depth) in stream_layers(tier) {
@@ -356,6 +364,13 @@ fn make_units(tier: Tier) -> Vec<Unit> {
             }
         }
     }
+    for (layer, depth) in dgram_layers(tier) {
+        for &drv in &DRIVERS {
+            for c0 in 0..dgram::alphabet(layer).len() as u32 {
+                units.push(Unit { family: "dgram-A", layer: layer.to_string(), drv, tr: Transport::Udp, depth, prefix: vec![c0] });
+            }
+        }
+    }
     // debugging aid: E_C14_ONLY=<substring of "family layer transport/driver">
     if let Ok(f) = std::env::var("E_C14_ONLY") {
         units.retain(|u| format!("{} {} {}", u.family, u.layer, u.cfg_name()).contains(&f));
@@ -365,8 +380,16 @@ fn make_units(tier: Tier) -> Vec<Unit> {
 
 /// runs one execution; returns the outcome and whether the runtime had been used before
 fn exec_one(par: &Params, unit: &Unit, ch: &mut Pk, cache: &mut rt::RtCache) -> (ExecOut, bool) {
-    let (rt, reused) = cache.get(unit.drv);
+    let pool = match unit.family {
+        "dgram-A" => (dgram::DPOOL_LEN, dgram::DPOOL_BUFS),
+        _ => (rt::POOL_BUF_LEN, rt::POOL_BUFS),
+    };
+    let (rt, reused) = cache.get(unit.drv, pool);
     let out = match unit.family {
+        "dgram-A" => {
+            let alphabet = dgram::alphabet(&unit.layer);
+            dgram::run_one(rt, ch, unit.drv, unit.layer == "connected", &alphabet, unit.depth)
+        }
         "stream-A" => {
             let big = par.big(unit.tr);
             let alphabet = stream_alphabet(&unit.layer, big);
@@ -582,6 +605,7 @@ fn run_parallel(par: &Params, units: &[Unit], tmp: &PathBuf) -> Agg {
 fn parse_unit(r: &Value) -> Unit {
     let family = match r["family"].as_str().unwrap_or("") {
         "stream-A" => "stream-A",
+        "dgram-A" => "dgram-A",
         other => vcore::machinery_error(&format!("unknown family {other:?} in the replay file")),
     };
     Unit {
@@ -590,6 +614,7 @@ fn parse_unit(r: &Value) -> Unit {
         drv: if r["driver"] == "uring" { DriverType::IoUring } else { DriverType::Poll },
         tr: match r["transport"].as_str().unwrap_or("") {
             "tcp" => Transport::Tcp,
+            "udp" => Transport::Udp,
             _ => Transport::Unix,
         },
         depth: r["depth"].as_u64().unwrap_or(5) as usize,
@@ -667,6 +692,11 @@ fn main() {
         "stream-A": {
             "transports": ["tcp-loopback", "unix-stream"],
             "layers": layers.iter().map(|(l, d)| json!({"layer": l, "depth": d, "alphabet": stream_alphabet(l, 99999).iter().map(|s| s.name()).collect::<Vec<_>>() })).collect::<Vec<_>>(),
+        },
+        "dgram-A": {
+            "transport": "udp-loopback, two raw peers", "datagram_sizes": dgram::SIZES,
+            "layers": dgram_layers(tier).iter().map(|(l, d)| json!({"layer": l, "depth": d, "alphabet": dgram::alphabet(l).iter().map(|s| s.name()).collect::<Vec<_>>() })).collect::<Vec<_>>(),
+            "managed_pool": {"buffers": dgram::DPOOL_BUFS, "buffer_len": dgram::DPOOL_LEN},
         },
         "big_send": {"tcp": par.big_tcp, "unix": par.big_unix, "accepted_by_one_send_with_minimised_SO_SNDBUF": {"tcp": acc_tcp, "unix": acc_unix}},
         "managed_pool": {"buffers": rt::POOL_BUFS, "buffer_len": rt::POOL_BUF_LEN},
